@@ -219,3 +219,93 @@ func init() {
 		specialReplays["color/brush."+f+"#post:lossless"] = lossless("line")
 	}
 }
+
+func init() {
+	// C03: replay one step of the grep context state machine. The model gives
+	// the state between two lines (ls.*, f.lineCount, ghost E / lastSel /
+	// selCount, ltx, whether the line is selected); the real
+	// filterLineWithLContext is called once in exactly that state and what it
+	// sends and returns is compared with the E-clauses computed in Go.
+	c03 := func(P *Program, v *ObligResult) (string, string, bool, error) {
+		fn := fnOfObligation(P, v.Name)
+		mi := func(key string, def int64) int64 {
+			if s, ok := v.Model[key]; ok {
+				var n int64
+				if _, err := fmt.Sscanf(smtIntToGo(s), "%d", &n); err == nil {
+					return n
+				}
+			}
+			return def
+		}
+		mb := func(key string) bool { return v.Model[key] == "true" }
+		flag0 := mi("(select *re.flags$arr 0)", 3)
+		matches := mb("(re_match **re.re.pattern *rawLine.content)")
+		sel := flag0 == 3 || (flag0 == 1 && matches) || (flag0 == 2 && !matches)
+		g := &goGen{P: P, model: v.Model, pkg: fn.Pkg.Pkg, imports: map[string]bool{"testing": true, "fmt": true, "bytes": true, "context": true,
+			modPath + "/internal/io/line": true, modPath + "/internal/lcontext": true, modPath + "/internal/regex": true}}
+		body := fmt.Sprintf(`// state taken from the solver's model
+		var (
+			lineCount           = uint64(%d)
+			E, lastSel, selCnt  = int64(%d), int64(%d), int64(%d)
+			A, B, M             = int64(%d), int64(%d), int64(%d)
+			after, maxCount     = %d, %d
+			maxReached, sel     = %v, %v
+			bufLen              = %d
+		)
+		mx := func(a, b int64) int64 { if a > b { return a }; return b }
+		Ae, Be, Me := mx(A, 0), mx(B, 0), mx(M, 0)
+		f := &readFile{}
+		f.lineCount = lineCount
+		ltx := lcontext.LContext{AfterContext: int(A), BeforeContext: int(B), MaxCount: int(M)}
+		ls := ltxState{maxCount: maxCount, processMaxCount: Me > 0, maxReached: maxReached, before: int(B), processBefore: Be > 0, after: after, processAfter: Ae > 0}
+		if ls.processBefore {
+			ls.beforeBuf = make(chan *bytes.Buffer, ls.before)
+			for i := 0; i < bufLen && i < ls.before; i++ {
+				ls.beforeBuf <- bytes.NewBufferString("before")
+			}
+		}
+		re := regex.NewNoop()
+		if !sel {
+			re, _ = regex.New("this never matches the line", regex.Default)
+		}
+		lines := make(chan *line.Line, 4096)
+		n := int64(lineCount) + 1
+		res := f.filterLineWithLContext(context.Background(), &ltx, &ls, nil, lines, &re, bytes.NewBufferString("the line"))
+		close(lines)
+		var got []int64
+		for l := range lines {
+			got = append(got, int64(l.Count))
+		}
+		// expectation from the E-clauses
+		var want []int64
+		wantAbort := false
+		allowed := Me == 0 || selCnt < Me
+		switch {
+		case sel && allowed:
+			for k := mx(E+1, n-Be); k <= n; k++ {
+				want = append(want, k)
+			}
+			wantAbort = Me > 0 && selCnt+1 == Me && Ae == 0
+		case sel && !allowed:
+			wantAbort = true
+		default:
+			if selCnt > 0 && n-lastSel <= Ae {
+				want = append(want, n)
+			}
+		}
+		if fmt.Sprint(got) != fmt.Sprint(want) || (res == abortReading) != wantAbort {
+			panic(fmt.Sprintf("line %%d (selected=%%v) with after=%%d before=%%d max=%%d, %%d selected lines emitted so far (last: %%d), last emitted %%d: sent %%v abort=%%v, grep semantics prescribe %%v abort=%%v",
+				n, sel, A, B, M, selCnt, lastSel, E, got, res == abortReading, want, wantAbort))
+		}`,
+			mi("*f.stats.lineCount", 0), mi("g_E@entry", 0), mi("g_lastSel@entry", 0), mi("g_selCount@entry", 0),
+			mi("*ltx.AfterContext", 0), mi("*ltx.BeforeContext", 0), mi("*ltx.MaxCount", 0),
+			mi("*ls.after", 0), mi("*ls.maxCount", 0), mb("*ls.maxReached"), sel, mi("*ls.beforeBuf$chan.len", 0))
+		src := g.testFile(fn.Pkg.Pkg, body)
+		out, ok, err := runOverlayTest(P, fn.Pkg.Pkg, src)
+		return src, out, ok, err
+	}
+	for _, l := range []string{"selected-emitted-with-before-context", "abort-exactly-after-max-without-after", "selected-beyond-max-ends-output", "unselected-only-as-after-context",
+		"ctx-after-window", "ctx-before-buffer", "ctx-max-countdown", "ctx-emitted-range", "ctx-no-selection-yet", "line-counted"} {
+		specialReplays["io/fs.(*readFile).filterLineWithLContext#post:"+l] = c03
+	}
+}
